@@ -361,7 +361,10 @@ def check_world(ctx, world, results):
                     cands = ring.cover_candidates(spans, length)
                     if len(cands) > 1 or 2 * cands[0][1] >= length:
                         ctx.count("saturated:extender-core")
-                        if not ring.covers(gotc, spans):
+                        # (a gene is covered when its exons are: an intron may hold the stretch the core leaves out)
+                        exons = list(ring.span(before.core_location, wrap)) + \
+                            [iv for g in admitted for iv in ring.parts_of(locs[g])]
+                        if not ring.covers(gotc, exons):
                             ctx.violate("extended-core-covers-admitted", facts_d, world)
                         continue
                     exp = ring.normalise(ring.arc_to_intervals(cands[0][0], cands[0][1], length))
